@@ -439,9 +439,22 @@ class EQLTranslator:
         if isinstance(query, Comparator):
             return self.translate_comparator(query)
         if isinstance(query, Attribute):
-            return self.translate_attribute(query)
+            return self.translate_truth_value(query)
 
         raise UnsupportedQueryTypeError(f"Unknown query type: {type(query)}")
+
+    def translate_truth_value(self, query: Attribute) -> Any:
+        """
+        Translate an attribute that is used as a condition, following Python's truth value.
+
+        :param query: The attribute query
+        :return: SQLAlchemy expression
+        """
+        column = self.translate_attribute(query)
+        if isinstance(column.type, sqlalchemy.String):
+            # a text column as condition is cast to a number by the database; bool(str) is "not empty"
+            return column != ""
+        return column
 
     def translate_and(self, query: AND) -> Optional[Any]:
         """
